@@ -12,7 +12,7 @@ CFG = {
             "Traverse(VLR), Traverse(LVR) and the hook dump (cached size, height, colour per node). The driver rebuilds the shape from "
             "the two public traversals with the extracted, proved rebuild function and checks Height() = longest path, AVL balance on "
             "real heights, cached = real heights, red-black colour invariants, black balance and height <= 2*log2(n+1); the model tree "
-            "is compared field by field as a fidelity observable. Non-trivial: two or more effective mutators and two or more keys.",
+            "is compared field by field as a fidelity observable. Non-trivial: two or more mutators that changed the number of keys, and two or more keys reached.",
     "assumptions": ["the hook VerifTreeDump reports the fields of the nodes faithfully (add-only file export_verif_trees.go)",
                     "Go int arithmetic does not overflow"],
 }
